@@ -40,8 +40,8 @@ def problem(subseed, force_variant=None):
     x0 = rs.uniform(-5, 5, size=D)
     seed = int(rs.randint(0, 2**31 - 1))
     # box geometry: the statement fixes the plausible box to contain the minimiser, not the hard bounds. Half of the panel uses
-    # the reference geometry (plausible [-5,5]^D in hard [-20,20]^D), the rest no hard bounds at all, or a ten times wider box.
-    variant = ["standard", "standard", "unbounded", "wide"][int(rs.randint(0, 4))]
+    # the reference geometry (plausible [-5,5]^D in hard [-20,20]^D), the rest no hard bounds at all, hard bounds on every other coordinate only, or a ten times wider box.
+    variant = ["standard", "standard", "unbounded", "wide", "mixed"][int(rs.randint(0, 5))]
     variant = force_variant or variant
     if variant == "wide":
         x0 = x0 * 10.0
@@ -55,6 +55,11 @@ def boxes(p):
     v = p.get("variant", "standard")
     if v == "unbounded":
         return None, None, np.full(D, -5.0), np.full(D, 5.0)
+    if v == "mixed":
+        # some coordinates without hard bounds, the others with the reference bounds
+        lb, ub = np.full(D, -20.0), np.full(D, 20.0)
+        lb[0::2], ub[0::2] = -np.inf, np.inf
+        return lb, ub, np.full(D, -5.0), np.full(D, 5.0)
     if v == "wide":
         return np.full(D, -100.0), np.full(D, 100.0), np.full(D, -50.0), np.full(D, 50.0)
     return np.full(D, -20.0), np.full(D, 20.0), np.full(D, -5.0), np.full(D, 5.0)
